@@ -7,11 +7,11 @@ ROOT = os.path.dirname(os.path.dirname(os.path.abspath(__file__)))
 # id -> (technique, level text, level note, design ref)
 CLAIMED = {
  "C18": ("store/effect scan over the session call tree (escape-edge VTA graph), allocation-site provenance of session objects, per-goroutine field access partition, SSA dominance for joins, structural shape of the cancellation select",
-         "Partial. Decides the data-race side structurally (there are no locks, so shared state must not be written): no session-reachable store to package-level or server-wide state; session objects are allocated per session; the generator and receiver goroutines partition the fields they write; results are read after the join. For termination only the necessary condition that waitFor returns on cancellation without waiting for the abandoned goroutine. Deadlock freedom/termination under all schedules is NOT decided (not applicable to static analysis).",
+         "Partial. Decides the data-race side structurally (there are no locks, so shared state must not be written): no session-reachable store to package-level or server-wide state; session objects are allocated per session; the only package-level variables session code touches are a reviewed allow-table; the generator and receiver goroutines partition the fields they write; results are read after the join. For termination only the necessary condition that waitFor returns on cancellation without waiting for the abandoned goroutine. Deadlock freedom/termination under all schedules is NOT decided (not applicable to static analysis).",
          "Trusted: errgroup/context semantics; embedding program's logger. Authorised-SSH users re-entering the CLI are a new program run, not session code.",
          "DESIGN.md §3 C18"),
  "C11": ("path enumeration with events over the generator (must-pass-through setPerms), finite-assignment CFG walks for option guards and type tables (phi-choice tracking), provenance of metadata field bindings",
-         "Partial, structural: every created/accepted entry goes through setPerms; each metadata syscall is controlled by its own option and privilege condition for all 64 condition assignments; wire type ↔ Go mode ↔ system-call tables agree per file type; each field travels from its accessor to its sink; the owner-write touch-up is set and consumed consistently. Numeric fidelity is not decided.",
+         "Partial, structural: every created/accepted entry goes through setPerms; each metadata syscall is controlled by its own option and privilege condition for all 64 condition assignments; wire type ↔ Go mode ↔ system-call tables agree per file type; each field travels from its accessor to its sink; the owner-write touch-up is set and consumed consistently; without -p an up-to-date file keeps its own permission bits; mtimes compare at one-second granularity. Numeric fidelity is not decided.",
          "Trusted: kernel/os.Root metadata calls. One genuine defect repaired by a fix: commit.",
          "DESIGN.md §3 C11"),
  "C14": ("wire-sequence extraction by finite-assignment CFG walk of encoder and decoder (compared with each other, no oracle), emission-table ∘ parse-table composition over all option assignments, sibling agreement of the two TransferOpts literals, handshake sequence extraction",
@@ -23,27 +23,27 @@ CLAIMED = {
          "Trusted: the transcription itself (listed in evidence trusted_base). No independent protocol-27 implementation can be run statically.",
          "DESIGN.md §3 C15"),
  "C20": ("field-store enumeration of the SSH server config, decision-table extraction of the public-key callback, string-dispatch surface extraction, call-graph unreachability from the anonymous exec callback",
-         "Decides: only public-key auth is ever configured; the key callback accepts iff the listener is anonymous or the presented key is in the loaded set (which is non-nil whenever an authorised address is configured); only session channels and env/exec requests are handled; from the anonymous listener's exec callback no CLI/client entry, process spawn, dial or listener is reachable while the daemon handler is.",
+         "Decides: only public-key auth is ever configured; the key callback accepts iff the listener is anonymous or the presented key is in the loaded set (which is non-nil whenever an authorised address is configured); only session channels and env/exec requests are handled; from the anonymous listener's exec callback no CLI/client entry, process spawn, dial or listener is reachable while the daemon handler is, and the module table it serves is the configured one.",
          "Trusted: x/crypto/ssh. Context-insensitive reachability (a mode check inside the general entry point would still be reported). One genuine defect repaired by a fix: commit.",
          "DESIGN.md §3 C20"),
  "C08": ("call-graph reachability of process terminators from session entry points + intraprocedural/interprocedural integer taint with dominating-comparison bounds (SSA)",
-         "Partial, structural: no os.Exit/log.Fatal/explicit panic is reachable from daemon, client or SSH session entry points; every integer read from the wire that reaches an index, slice bound or make length is bounded by dominating comparisons; SumHead fields are range-checked by their reader; connection errors cannot reach the accept loop. Nil dereferences, arithmetic-dependent panics and library panics are NOT decided.",
+         "Partial, structural: no os.Exit/log.Fatal/explicit panic is reachable from daemon, client or SSH session entry points; every integer read from the wire that reaches an index, slice bound or make length is bounded by dominating comparisons; SumHead fields are range-checked by their reader; integer divisions have non-zero divisors; window slices are tested for emptiness before indexing; connection errors cannot reach the accept loop. Nil dereferences, arithmetic-dependent panics and library panics are NOT decided.",
          "Trusted: VTA call-graph soundness assumptions; Go runtime semantics of bounds checks. Three genuine defects repaired by fix: commits. The demultiplexer's buffer-size panic is discharged through C17/BUFFER+LENGTH-GATE.",
          "DESIGN.md §3 C08"),
  "C17": ("value-flow (use-set) of the demultiplexer and its buffer, SSA guard dominance of length checks, who-may-call for session reads, decision table of the frame reader, constant relations",
-         "Decides the structural reduction of framing transparency: the demultiplexer only sits behind a buffer ≥ the largest frame and is only Read; frame lengths are masked and gated before allocation; error/info/data/unknown tags are dispatched as stated; all session reads are full reads; emitted headers encode a bounded length equal to the bytes written; multiplexing is switched on exactly once on each side.",
+         "Decides the structural reduction of framing transparency: the demultiplexer only sits behind a buffer ≥ the largest frame and is only Read; frame lengths are masked and gated before allocation; error/info/data/unknown tags are dispatched as stated; all session reads are full reads; emitted headers encode a bounded length equal to the bytes written; multiplexing is switched on exactly once on each side; no session reader is widened beyond Read.",
          "Trusted: bufio.Reader.Read behaviour. End-to-end equality across re-framings is not decided.",
          "DESIGN.md §3 C17"),
  "C13": ("SSA guard dominance (SkipDir only for directories), def/use agreement between rule parsing and rule matching (every settable flag is read or rejected), decision-table extraction of first-match, provenance of the rule list handed to the sender",
-         "Partial, structural: excluded files never cut the walk; every flag the parser can set is honoured by the matcher or rejected with an error; no explicit panic under the matcher; first matching rule decides by its include flag; both sender entry points receive the user's rules; the receiving client sends its rules before the list terminator. String semantics of matching are not decided.",
+         "Partial, structural: excluded files never cut the walk; every flag the parser can set is honoured by the matcher or rejected with an error; no explicit panic under the matcher; first matching rule decides by its include flag; a plain-name rule is decided by string equality and loses exactly the prefix that was tested; both sender entry points receive the user's rules; the receiving client sends its rules before the list terminator. String semantics of matching are not decided.",
          "Trusted: fs.WalkDir SkipDir semantics. Five genuine defects found by these rules were repaired by fix: commits (known_findings.json).",
          "DESIGN.md §3 C13"),
  "C02": ("SSA guard dominance with value identity (same block index i across weak, length and strong comparisons) + who-may-call for checksum definitions + field-store provenance of the seed",
-         "Partial, structural: a block reference is emitted only after weak, length and strong (seeded MD4, sliced by the negotiated length) comparisons for that same block; one shared checksum definition used by both ends with the session seed; the whole-file trailer is always sent. Exactness of offsets/windows/arithmetic is NOT decided.",
+         "Partial, structural: a block reference is emitted only after weak, length and strong (seeded MD4, sliced by the negotiated length) comparisons for that same block; one shared checksum definition used by both ends with the session seed; the whole-file trailer is always sent; a reallocated read window keeps its contents. Exactness of offsets/windows/arithmetic is NOT decided.",
          "Trusted: MD4. Not covered: window arithmetic in mapStruct/matched/receiveData.",
          "DESIGN.md §3 C02"),
  "C06": ("API confinement over the reachable call graph + SSA provenance of the os.OpenRoot argument (phi-edge guards) + interface-implementation enumeration",
-         "Decides the capability argument: the sender reads only through FileSource, whose only implementations are an os.Root wrapper and the module's fs.FS; the single os.OpenRoot takes the configured module path (request text only for the implicit \"/\" module); the module handed to the session is an element of the configured table.",
+         "Decides the capability argument: the sender reads only through FileSource, whose only implementations are an os.Root wrapper and the module's fs.FS; the single os.OpenRoot takes the configured module path (request text only for the implicit \"/\" module); the module handed to the session is an element of the configured table; no process-wide buffer pools or caches are reachable from the sender.",
          "Trusted: os.Root refuses escaping symlinks/.. ; fs.FS implementations supplied by embedders.",
          "DESIGN.md §3 C06"),
  "C12": ("decision-table extraction by path enumeration over the SSA CFG with provenance-identified atoms, compared with a specification procedure",
@@ -59,7 +59,7 @@ CLAIMED = {
          "Trusted: MD4 (probabilistic), renameio semantics. The idiom set for error propagation is the repository's (`if err != nil {return}` / `return f()`).",
          "DESIGN.md §3 C03"),
  "C04": ("API confinement over the reachable call graph + SSA dominance/typestate (defer-cleanup dominates returns, no write after replace, join before effects)",
-         "Decides that nothing reachable from the receiver writes content or links under a final name except via renameio.NewPendingFile(WithRoot only)/SymlinkRoot; that a deferred Cleanup covers every return after creation; no write after the atomic replace; first error aborts before post-transfer effects. Crash atomicity itself is rename(2) inside renameio (trusted).",
+         "Decides that nothing reachable from the receiver writes content or links under a final name except via renameio.NewPendingFile(WithRoot only)/SymlinkRoot; that a deferred Cleanup covers every return after creation; no write after the atomic replace; no unlink before a replacement except at the two type-change sites; first error aborts before post-transfer effects. Crash atomicity itself is rename(2) inside renameio (trusted).",
          "Trusted: rename(2)/renameio atomicity. Not covered: temp-file removal when Do returns while the receiver goroutine is still blocked (see DESIGN.md).",
          "DESIGN.md §3 C04"),
  "C07": ("guard dominance lifted over the rsyncd package call graph + reachability (send path effect-free) + field-store provenance",
@@ -67,7 +67,7 @@ CLAIMED = {
          "Trusted: mutator classification table; configuration decoding happens before sessions. Library entry points with caller-chosen module are assumptions.",
          "DESIGN.md §3 C07"),
  "C05": ("API-confinement (who-may-call) + SSA value provenance over the escape-edge VTA call graph",
-         "Decides a structural necessary condition, not the behaviour: no function reachable from the receiver calls an ambient-authority file API; every *os.Root operation uses Transfer.DestRoot (provenance through parameters/phis); DestRoot only ever holds an os.OpenRoot result; special files are created fd-relative with a base name; the delete walk is over DestRoot.FS(). Confinement itself is os.Root's guarantee.",
+         "Decides a structural necessary condition, not the behaviour: no function reachable from the receiver calls an ambient-authority file API; every *os.Root operation uses Transfer.DestRoot (provenance through parameters/phis); DestRoot only ever holds an os.OpenRoot result; special files are created fd-relative with a base name; the delete walk is over DestRoot.FS(); every name handed to os.Root is lexically clean by provenance (os.Root up to Go 1.25 follows `name/` through an escaping symlink). Confinement itself is os.Root's guarantee.",
          "Trusted: os.Root/kernel path confinement, renameio.WithRoot. Linux configurations only. Call graph soundness: no reflection/unsafe in module code; foreign code calls only what it is handed.",
          "DESIGN.md §3 C05"),
  "C09": ("SSA guard dominance (local + lifted through call chains) and sibling-agreement of sort/lookup comparators",
@@ -124,7 +124,7 @@ def main():
         }],
         "checks": checks,
         "not_applicable": na,
-        "notes": "All checks are static (technique family fixed by the task). quick = linux/amd64; thorough = linux/amd64+386+arm64 plus checker self-tests. Genuine defects found are repaired by fix: commits in /repo or listed in known_findings.json; see DESIGN.md §4.",
+        "notes": "100 rules over 18 properties. All checks are static (technique family fixed by the task). quick = linux/amd64; thorough = linux/amd64+386+arm64 plus checker self-tests. Genuine defects found are repaired by fix: commits in /repo or listed in known_findings.json; see DESIGN.md §4.",
     }
     json.dump(m, open(os.path.join(ROOT, "MANIFEST.json"), "w"), indent=1)
     # validate
